@@ -151,6 +151,14 @@ func (g *Gen) step(fn *ssa.Function, st *State, in ssa.Instruction) {
 		r := Val{T: s, Kind: "err", Ty: x.Type()}
 		iv := inner
 		r.Elem = &iv
+		// the boxed value stays reachable through the interface identity: dyntype(s) and payload.T(s)
+		g.assume(st, fmt.Sprintf("(= (%s %s) %s)", g.uf("dyntype", 1, "Int"), s, g.typeID(x.X.Type())))
+		switch {
+		case inner.Kind == "int":
+			g.assume(st, fmt.Sprintf("(= (%s %s) %s)", g.uf("payload."+typeName(x.X.Type()), 1, "Int"), s, inner.T))
+		case inner.Kind == "bool":
+			g.assume(st, fmt.Sprintf("(= (%s %s) %s)", g.uf("ispayload."+typeName(x.X.Type()), 1, "Bool"), s, inner.T))
+		}
 		g.regs[x] = r
 	case *ssa.IndexAddr:
 		a := g.val(st, x.X)
